@@ -6,7 +6,7 @@
    on every run by harness/gen_C03.py (gradient AND logd differences of the same object). *)
 From CV Require Import Base.Tac Base.LinAlg Base.QcLin Model.C03_GradR Model.C03_GradQ.
 From CV Require Import Proofs.C03_GradR Proofs.C03_Quad Proofs.C03_QuadR Proofs.C03_GradQ Proofs.C03_Sym Proofs.C03_LikGen Proofs.C03_Lik Proofs.C03_SymR Proofs.C03_Gallery.
-From CV Require Import Model.C03_Support Proofs.C03_Gram Proofs.C03_GramR Proofs.C03_Support Proofs.C03_Compose Proofs.C03_Chain.
+From CV Require Import Model.C03_Support Proofs.C03_Gram Proofs.C03_GramR Proofs.C03_Support Proofs.C03_Compose Proofs.C03_Chain Model.C03_ChainR Proofs.C03_ChainR Proofs.C03_Forms.
 From Coq Require Import Reals QArith Qcanon Qreals.
 From Coquelicot Require Import Coquelicot.
 
@@ -573,6 +573,47 @@ Proof.
   - intros n A B u0 HA HB HAB Hu. split; [apply curve_diff_poly; exact HAB | apply adjoint_poly; assumption].
 Qed.
 Print Assumptions C03_chain_instances.
+
+(* the model's own polynomial-family / quadratic-geometry formulas (rlik_logk / rlik_grad = the generic form of the Qc model,
+   C03_likelihood_model_is_generic) recovered as an INSTANCE of the general theorem: its hypotheses are satisfiable *)
+Theorem C03_likelihood_model_from_general : forall (n k : nat) (A B P : list (list R)) (ga gb gc : R) (data th d : list R),
+  wf_mat n A -> wf_mat n B -> length A = k -> length B = k ->
+  wf_mat k P -> length P = k -> rtranspose k P = P ->
+  length data = k -> length th = n -> length d = n ->
+  is_derive (fun t => rlik_logk A B ga gb gc P data (rvadd th (rvscale t d))) 0%R
+            (rdot (rlik_grad A B ga gb gc P data th) d).
+Proof. exact lik_model_derive_general. Qed.
+Print Assumptions C03_likelihood_model_from_general.
+
+(* transcendental elementwise geometries with their own derivative (exp, sin) in front of the polynomial family: the
+   real-valued model Model/C03_ChainR.v that the lik-tgeo cells evaluate by `interval` *)
+Theorem C03_transcendental_geometry_likelihood : forall (m : tmap) (n k : nat) (A B P : list (list R)) (data th d : list R),
+  wf_mat n A -> wf_mat n B -> length A = k -> length B = k ->
+  wf_mat k P -> length P = k -> rtranspose k P = P ->
+  length data = k -> length th = n -> length d = n ->
+  is_derive (fun t => tlik_logk m A B P data (rvadd th (rvscale t d))) 0%R (rdot (tlik_grad m A B P data th) d).
+Proof. exact tlik_derive. Qed.
+Print Assumptions C03_transcendental_geometry_likelihood.
+
+(* ---------------------------------------------------------------------------------------------
+   11. (third deepening round) EVERY Gaussian parameterisation x parameter kind: the symmetry hypothesis on the certificate
+       P (the implied precision matrix) is replaced by the test relating P to the parameter (implied_prec_ok, run by every
+       case) and the natural precondition on the PARAMETER (param_symb: a covariance / precision matrix is symmetric; a
+       square root may be any matrix) -- a right inverse of a form-symmetric matrix is form-symmetric *)
+Theorem C03_gaussian_certificate_symmetric : forall n form p (P : list (list Qc)),
+  wf_matb n (as_matrix n p) = true -> length (as_matrix n p) = n -> wf_matb n P = true -> length P = n ->
+  implied_prec_ok n form p P = true -> param_symb n form p = true -> qsym_form n P.
+Proof. exact implied_prec_sym_form. Qed.
+Print Assumptions C03_gaussian_certificate_symmetric.
+
+Theorem C03_gaussian_model_line_all_forms : forall n form p (P : list (list Qc)) (m x d : list Qc) (t : Qc),
+  wf_matb n (as_matrix n p) = true -> length (as_matrix n p) = n -> wf_matb n P = true -> length P = n ->
+  implied_prec_ok n form p P = true -> param_symb n form p = true ->
+  length m = n -> length x = n -> length d = n ->
+  quad_logk P m (qvadd x (qvscale t d)) =
+  (quad_logk P m x + t * qdot (quad_grad P m x) d - half * (t * t) * qdot d (qmatvec P d))%Qc.
+Proof. exact quad_model_line_all_forms. Qed.
+Print Assumptions C03_gaussian_model_line_all_forms.
 
 (* non-vacuity: the Cauchy hypotheses hold at loc = 1/2, scale = 2, x = 3/4, and a symmetric form exists *)
 Example C03_example :
